@@ -38,6 +38,13 @@ Definition kid_is (k : xtree) (ns local : string) : bool :=
   | _ => false
   end.
 
+(** A field whose tag names no namespace matches on the local name alone. *)
+Definition kid_local (k : xtree) (local : string) : bool :=
+  match k with
+  | XElem _ l _ _ => String.eqb l local
+  | _ => false
+  end.
+
 (** Direct character data of an element, concatenated (what Unmarshal stores in a
     [,chardata] field and hands to a TextUnmarshaler). *)
 Fixpoint chardata (ks : list xtree) : string :=
@@ -55,6 +62,8 @@ Section Fold.
     | a :: r => match f acc a with Some x => fold_opt r x | None => None end
     end.
 End Fold.
+
+Definition is_some {A} (o : option A) : bool := match o with Some _ => true | None => false end.
 
 (** encoding/xml refuses to recurse deeper than 10000 (errUnmarshalDepth). *)
 Definition MAXD : N := 10000.
@@ -276,19 +285,19 @@ Definition propfind_zero := {| pf_prop := None; pf_allprop := false; pf_include 
 Definition um_propfind (d : N) (acc : propfindW) (t : xtree) : option propfindW :=
   um_struct (Some (NS_DAV, "propfind")) no_attr
     (fun acc k =>
-       if kid_is k NS_DAV "prop" then
+       if kid_local k "prop" then
          match into_ptr (um_raws "prop") [] d (pf_prop acc) k with
          | Some v => Some {| pf_prop := v; pf_allprop := pf_allprop acc; pf_include := pf_include acc; pf_propname := pf_propname acc |}
          | None => None end
-       else if kid_is k NS_DAV "allprop" then
+       else if kid_local k "allprop" then
          match into_flag d with
          | Some v => Some {| pf_prop := pf_prop acc; pf_allprop := v; pf_include := pf_include acc; pf_propname := pf_propname acc |}
          | None => None end
-       else if kid_is k NS_DAV "include" then
+       else if kid_local k "include" then
          match into_ptr (um_raws "include") [] d (pf_include acc) k with
          | Some v => Some {| pf_prop := pf_prop acc; pf_allprop := pf_allprop acc; pf_include := v; pf_propname := pf_propname acc |}
          | None => None end
-       else if kid_is k NS_DAV "propname" then
+       else if kid_local k "propname" then
          match into_flag d with
          | Some v => Some {| pf_prop := pf_prop acc; pf_allprop := pf_allprop acc; pf_include := pf_include acc; pf_propname := v |}
          | None => None end
@@ -298,7 +307,7 @@ Definition um_propfind (d : N) (acc : propfindW) (t : xtree) : option propfindW 
 (** Remove / Set : struct { XMLName `DAV: remove|set`; Prop Prop `prop` } *)
 Definition um_remset (local : string) (d : N) (acc : list rawval) (t : xtree) : option (list rawval) :=
   um_struct (Some (NS_DAV, local)) no_attr
-    (fun acc k => if kid_is k NS_DAV "prop" then um_raws "prop" (d + 1) acc k else Some acc)
+    (fun acc k => if kid_local k "prop" then um_raws "prop" (d + 1) acc k else Some acc)
     no_text d acc t.
 
 Record propupdateW := { pu_remove : list (list rawval); pu_set : list (list rawval) }.
@@ -307,19 +316,19 @@ Definition propupdate_zero := {| pu_remove := []; pu_set := [] |}.
 Definition um_propupdate (d : N) (acc : propupdateW) (t : xtree) : option propupdateW :=
   um_struct (Some (NS_DAV, "propertyupdate")) no_attr
     (fun acc k =>
-       if kid_is k NS_DAV "remove" then
+       if kid_local k "remove" then
          match into_slice (um_remset "remove") [] d (pu_remove acc) k with
          | Some v => Some {| pu_remove := v; pu_set := pu_set acc |} | None => None end
-       else if kid_is k NS_DAV "set" then
+       else if kid_local k "set" then
          match into_slice (um_remset "set") [] d (pu_set acc) k with
          | Some v => Some {| pu_remove := pu_remove acc; pu_set := v |} | None => None end
        else Some acc)
     no_text d acc t.
 
 (** mkcolReq: fields with the paths set>prop>resourcetype, set>prop>displayname
-    (and, for CardDAV, set>prop>addressbook-description whose struct type carries
-    an XMLName in the CardDAV namespace while the path inherits DAV:).  Every path
-    element must be in the DAV: namespace; unmarshalPath does not add depth. *)
+    (and, for CardDAV, set>prop>addressbook-description).  Path elements and
+    fields match on local names; the XMLName of the field's struct type is checked
+    afterwards; unmarshalPath does not add depth. *)
 Record mkcolW := { mk_rtype : list rawval; mk_name : string; mk_desc : string }.
 Definition mkcol_zero := {| mk_rtype := []; mk_name := ""; mk_desc := "" |}.
 
@@ -333,26 +342,26 @@ Definition um_description (d : N) (acc : string) (t : xtree) : option string :=
     (fun _ s => s) d acc t.
 
 Definition mkcol_leaf (card : bool) (d : N) (acc : mkcolW) (k : xtree) : option mkcolW :=
-  if kid_is k NS_DAV "resourcetype" then
+  if kid_local k "resourcetype" then
     match um_raws "resourcetype" (d + 1) (mk_rtype acc) k with
     | Some v => Some {| mk_rtype := v; mk_name := mk_name acc; mk_desc := mk_desc acc |} | None => None end
-  else if kid_is k NS_DAV "displayname" then
+  else if kid_local k "displayname" then
     match um_string (d + 1) k with
     | Some v => Some {| mk_rtype := mk_rtype acc; mk_name := v; mk_desc := mk_desc acc |} | None => None end
-  else if card && kid_is k NS_DAV "addressbook-description" then
+  else if card && kid_local k "addressbook-description" then
     match um_description (d + 1) (mk_desc acc) k with
     | Some v => Some {| mk_rtype := mk_rtype acc; mk_name := mk_name acc; mk_desc := v |} | None => None end
   else Some acc.
 
-Definition mkcol_in (ns local : string) (inner : mkcolW -> xtree -> option mkcolW) (acc : mkcolW) (k : xtree) : option mkcolW :=
+Definition mkcol_in (local : string) (inner : mkcolW -> xtree -> option mkcolW) (acc : mkcolW) (k : xtree) : option mkcolW :=
   match k with
-  | XElem n l _ kids => if String.eqb n ns && String.eqb l local then fold_opt inner kids acc else Some acc
+  | XElem _ l _ kids => if String.eqb l local then fold_opt inner kids acc else Some acc
   | _ => Some acc
   end.
 
 Definition um_mkcol (card : bool) (d : N) (acc : mkcolW) (t : xtree) : option mkcolW :=
   um_struct (Some (NS_DAV, "mkcol")) no_attr
-    (mkcol_in NS_DAV "set" (mkcol_in NS_DAV "prop" (mkcol_leaf card d)))
+    (mkcol_in "set" (mkcol_in "prop" (mkcol_leaf card d)))
     no_text d acc t.
 
 (* ------------------------------------------------------------------ *)
@@ -401,10 +410,10 @@ Definition um_param_filter (card : bool) (ns : string) (d : N) (acc : paramFilte
     (fun acc a => if String.eqb (a_local a) "name"
                   then Some {| paf_name := a_val a; paf_ind := paf_ind acc; paf_tm := paf_tm acc |} else Some acc)
     (fun acc k =>
-       if kid_is k ns "is-not-defined" then
+       if kid_local k "is-not-defined" then
          match into_flag d with
          | Some v => Some {| paf_name := paf_name acc; paf_ind := v; paf_tm := paf_tm acc |} | None => None end
-       else if kid_is k ns "text-match" then
+       else if kid_local k "text-match" then
          match into_ptr (um_text_match card ns) text_match_zero d (paf_tm acc) k with
          | Some v => Some {| paf_name := paf_name acc; paf_ind := paf_ind acc; paf_tm := v |} | None => None end
        else Some acc)
@@ -420,19 +429,19 @@ Definition um_cprop_filter (d : N) (acc : cpropFilterW) (t : xtree) : option cpr
                   then Some {| cpf_name := a_val a; cpf_ind := cpf_ind acc; cpf_tr := cpf_tr acc; cpf_tm := cpf_tm acc; cpf_params := cpf_params acc |}
                   else Some acc)
     (fun acc k =>
-       if kid_is k NS_CAL "is-not-defined" then
+       if kid_local k "is-not-defined" then
          match into_flag d with
          | Some v => Some {| cpf_name := cpf_name acc; cpf_ind := v; cpf_tr := cpf_tr acc; cpf_tm := cpf_tm acc; cpf_params := cpf_params acc |}
          | None => None end
-       else if kid_is k NS_CAL "time-range" then
+       else if kid_local k "time-range" then
          match into_ptr um_time_range time_range_zero d (cpf_tr acc) k with
          | Some v => Some {| cpf_name := cpf_name acc; cpf_ind := cpf_ind acc; cpf_tr := v; cpf_tm := cpf_tm acc; cpf_params := cpf_params acc |}
          | None => None end
-       else if kid_is k NS_CAL "text-match" then
+       else if kid_local k "text-match" then
          match into_ptr (um_text_match false NS_CAL) text_match_zero d (cpf_tm acc) k with
          | Some v => Some {| cpf_name := cpf_name acc; cpf_ind := cpf_ind acc; cpf_tr := cpf_tr acc; cpf_tm := v; cpf_params := cpf_params acc |}
          | None => None end
-       else if kid_is k NS_CAL "param-filter" then
+       else if kid_local k "param-filter" then
          match into_slice (um_param_filter false NS_CAL) param_filter_zero d (cpf_params acc) k with
          | Some v => Some {| cpf_name := cpf_name acc; cpf_ind := cpf_ind acc; cpf_tr := cpf_tr acc; cpf_tm := cpf_tm acc; cpf_params := v |}
          | None => None end
@@ -449,15 +458,15 @@ Fixpoint um_comp_filter (d : N) (acc : compFilterW) (t : xtree) {struct t} : opt
                     if String.eqb (a_local a) "name" then Some (CompFilterW (a_val a) i tr pfs cfs) else Some acc end)
     (fun acc k =>
        match acc with CompFilterW n i tr pfs cfs =>
-       if kid_is k NS_CAL "is-not-defined" then
+       if kid_local k "is-not-defined" then
          match into_flag d with Some v => Some (CompFilterW n v tr pfs cfs) | None => None end
-       else if kid_is k NS_CAL "time-range" then
+       else if kid_local k "time-range" then
          match into_ptr um_time_range time_range_zero d tr k with
          | Some v => Some (CompFilterW n i v pfs cfs) | None => None end
-       else if kid_is k NS_CAL "prop-filter" then
+       else if kid_local k "prop-filter" then
          match into_slice um_cprop_filter cprop_filter_zero d pfs k with
          | Some v => Some (CompFilterW n i tr v cfs) | None => None end
-       else if kid_is k NS_CAL "comp-filter" then
+       else if kid_local k "comp-filter" then
          chk (d + 1) (match um_comp_filter (d + 2) comp_filter_zero k with
                       | Some x => Some (CompFilterW n i tr pfs (cfs ++ [x])%list) | None => None end)
        else Some acc end)
@@ -466,7 +475,7 @@ Fixpoint um_comp_filter (d : N) (acc : compFilterW) (t : xtree) {struct t} : opt
 (** filter: struct { XMLName `caldav filter`; CompFilter compFilter `comp-filter` } *)
 Definition um_cal_filter (d : N) (acc : compFilterW) (t : xtree) : option compFilterW :=
   um_struct (Some (NS_CAL, "filter")) no_attr
-    (fun acc k => if kid_is k NS_CAL "comp-filter" then um_comp_filter (d + 1) acc k else Some acc)
+    (fun acc k => if kid_local k "comp-filter" then um_comp_filter (d + 1) acc k else Some acc)
     no_text d acc t.
 
 (** calendar-data request: comp (recursive), prop, expand *)
@@ -484,14 +493,14 @@ Fixpoint um_comp (d : N) (acc : compW) (t : xtree) {struct t} : option compW :=
                     if String.eqb (a_local a) "name" then Some (CompW (a_val a) ap ps ac cs) else Some acc end)
     (fun acc k =>
        match acc with CompW n ap ps ac cs =>
-       if kid_is k NS_CAL "allprop" then
+       if kid_local k "allprop" then
          match into_flag d with Some v => Some (CompW n v ps ac cs) | None => None end
-       else if kid_is k NS_CAL "prop" then
+       else if kid_local k "prop" then
          match into_slice (um_named NS_CAL "prop") "" d ps k with
          | Some v => Some (CompW n ap v ac cs) | None => None end
-       else if kid_is k NS_CAL "allcomp" then
+       else if kid_local k "allcomp" then
          match into_flag d with Some v => Some (CompW n ap ps v cs) | None => None end
-       else if kid_is k NS_CAL "comp" then
+       else if kid_local k "comp" then
          chk (d + 1) (match um_comp (d + 2) comp_zero k with
                       | Some x => Some (CompW n ap ps ac (cs ++ [x])%list) | None => None end)
        else Some acc end)
@@ -514,10 +523,10 @@ Definition cal_data_zero := {| cd_comp := None; cd_expand := None |}.
 Definition um_cal_data (d : N) (acc : calDataW) (t : xtree) : option calDataW :=
   um_struct (Some (NS_CAL, "calendar-data")) no_attr
     (fun acc k =>
-       if kid_is k NS_CAL "comp" then
+       if kid_local k "comp" then
          match into_ptr um_comp comp_zero d (cd_comp acc) k with
          | Some v => Some {| cd_comp := v; cd_expand := cd_expand acc |} | None => None end
-       else if kid_is k NS_CAL "expand" then
+       else if kid_local k "expand" then
          match into_ptr um_expand time_range_zero d (cd_expand acc) k with
          | Some v => Some {| cd_comp := cd_comp acc; cd_expand := v |} | None => None end
        else Some acc)
@@ -549,7 +558,7 @@ Definition um_cal_query (d : N) (acc : calQueryW) (t : xtree) : option calQueryW
        | None => None
        | Some (Some s) => Some {| cq_sel := s; cq_filter := cq_filter acc |}
        | Some None =>
-         if kid_is k NS_CAL "filter" then
+         if kid_local k "filter" then
            match um_cal_filter (d + 1) (cq_filter acc) k with
            | Some f => Some {| cq_sel := cq_sel acc; cq_filter := f |} | None => None end
          else Some acc
@@ -582,12 +591,21 @@ Definition um_multiget (ns local : string) (url_ok : string -> bool) (d : N) (ac
 
 Inductive calReportW := CalQuery (q : calQueryW) | CalMultiget (m : multigetW).
 
-(** reportReq.UnmarshalXML: dispatch on the root name, then DecodeElement (depth 0 again) *)
+(** unqualifiedAttrReader: the CalDAV report is decoded from a token stream in
+    which every attribute that has a namespace (declarations included) is left out *)
+Fixpoint drop_qualified (t : xtree) : xtree :=
+  match t with
+  | XElem ns l attrs kids => XElem ns l (filter (fun a => str_empty (a_ns a)) attrs) (map drop_qualified kids)
+  | _ => t
+  end.
+
+(** reportReq.UnmarshalXML: dispatch on the root name, then a fresh Decode (depth 0
+    again) over the filtered tokens *)
 Definition um_cal_report (url_ok : string -> bool) (d : N) (t : xtree) : option calReportW :=
   chk d (if kid_is t NS_CAL "calendar-query" then
-           match um_cal_query 0 cal_query_zero t with Some q => Some (CalQuery q) | None => None end
+           match um_cal_query 0 cal_query_zero (drop_qualified t) with Some q => Some (CalQuery q) | None => None end
          else if kid_is t NS_CAL "calendar-multiget" then
-           match um_multiget NS_CAL "calendar-multiget" url_ok 0 multiget_zero t with Some m => Some (CalMultiget m) | None => None end
+           match um_multiget NS_CAL "calendar-multiget" url_ok 0 multiget_zero (drop_qualified t) with Some m => Some (CalMultiget m) | None => None end
          else None).
 
 (* ------------------------------------------------------------------ *)
@@ -608,15 +626,15 @@ Definition um_aprop_filter (d : N) (acc : apropFilterW) (t : xtree) : option apr
          else None
        else Some acc)
     (fun acc k =>
-       if kid_is k NS_CARD "is-not-defined" then
+       if kid_local k "is-not-defined" then
          match into_flag d with
          | Some v => Some {| apf_name := apf_name acc; apf_test := apf_test acc; apf_ind := v; apf_tms := apf_tms acc; apf_params := apf_params acc |}
          | None => None end
-       else if kid_is k NS_CARD "text-match" then
+       else if kid_local k "text-match" then
          match into_slice (um_text_match true NS_CARD) text_match_zero d (apf_tms acc) k with
          | Some v => Some {| apf_name := apf_name acc; apf_test := apf_test acc; apf_ind := apf_ind acc; apf_tms := v; apf_params := apf_params acc |}
          | None => None end
-       else if kid_is k NS_CARD "param-filter" then
+       else if kid_local k "param-filter" then
          match into_slice (um_param_filter true NS_CARD) param_filter_zero d (apf_params acc) k with
          | Some v => Some {| apf_name := apf_name acc; apf_test := apf_test acc; apf_ind := apf_ind acc; apf_tms := apf_tms acc; apf_params := v |}
          | None => None end
@@ -633,7 +651,7 @@ Definition um_card_filter (d : N) (acc : cardFilterW) (t : xtree) : option cardF
          if filter_test_ok (a_val a) then Some {| af_test := a_val a; af_props := af_props acc |} else None
        else Some acc)
     (fun acc k =>
-       if kid_is k NS_CARD "prop-filter" then
+       if kid_local k "prop-filter" then
          match into_slice um_aprop_filter aprop_filter_zero d (af_props acc) k with
          | Some v => Some {| af_test := af_test acc; af_props := v |} | None => None end
        else Some acc)
@@ -646,7 +664,7 @@ Definition um_uint (d : N) (t : xtree) : option N :=
 (** limit: struct { XMLName `carddav limit`; NResults uint `nresults` } *)
 Definition um_limit (d : N) (acc : N) (t : xtree) : option N :=
   um_struct (Some (NS_CARD, "limit")) no_attr
-    (fun acc k => if kid_is k NS_CARD "nresults" then um_uint (d + 1) k else Some acc)
+    (fun acc k => if kid_local k "nresults" then um_uint (d + 1) k else Some acc)
     no_text d acc t.
 
 Record cardQueryW := { aq_sel : selW; aq_filter : cardFilterW; aq_limit : option N }.
@@ -659,10 +677,10 @@ Definition um_card_query (d : N) (acc : cardQueryW) (t : xtree) : option cardQue
        | None => None
        | Some (Some s) => Some {| aq_sel := s; aq_filter := aq_filter acc; aq_limit := aq_limit acc |}
        | Some None =>
-         if kid_is k NS_CARD "filter" then
+         if kid_local k "filter" then
            match um_card_filter (d + 1) (aq_filter acc) k with
            | Some f => Some {| aq_sel := aq_sel acc; aq_filter := f; aq_limit := aq_limit acc |} | None => None end
-         else if kid_is k NS_CARD "limit" then
+         else if kid_local k "limit" then
            match into_ptr um_limit 0 d (aq_limit acc) k with
            | Some l => Some {| aq_sel := aq_sel acc; aq_filter := aq_filter acc; aq_limit := l |} | None => None end
          else Some acc
@@ -675,10 +693,10 @@ Definition addr_data_zero := {| ad_props := []; ad_allprop := false |}.
 Definition um_addr_data (d : N) (acc : addrDataW) (t : xtree) : option addrDataW :=
   um_struct (Some (NS_CARD, "address-data")) no_attr
     (fun acc k =>
-       if kid_is k NS_CARD "prop" then
+       if kid_local k "prop" then
          match into_slice (um_named NS_CARD "prop") "" d (ad_props acc) k with
          | Some v => Some {| ad_props := v; ad_allprop := ad_allprop acc |} | None => None end
-       else if kid_is k NS_CARD "allprop" then
+       else if kid_local k "allprop" then
          match into_flag d with
          | Some v => Some {| ad_props := ad_props acc; ad_allprop := v |} | None => None end
        else Some acc)
@@ -1025,7 +1043,8 @@ Definition serve_principal (opts_nil : bool) (r : request) : outcome :=
   else if String.eqb m "PROPFIND" then
     match decode_propfind_request r with
     | None => finish bad_request
-    | Some s => if opts_nil then Panicked
+    | Some s => if negb (str_empty (r_depth r)) && negb (is_some (parse_depth (r_depth r))) then finish bad_request
+                else if opts_nil then Panicked
                 else match new_propfind_response s with
                      | Some _ => Resp 207 []
                      | None => finish bad_request
@@ -1036,7 +1055,6 @@ Definition serve_principal (opts_nil : bool) (r : request) : outcome :=
 (* ------------------------------------------------------------------ *)
 (** * caldav/server.go                                                 *)
 
-Definition is_some {A} (o : option A) : bool := match o with Some _ => true | None => false end.
 Definition nonempty {A} (l : list A) : bool := match l with [] => false | _ => true end.
 
 (** decodeParamFilter, decodePropFilter, decodeCompFilter: [true] = decoded,
@@ -1509,9 +1527,8 @@ Definition copy_or_move (r : request) : bool := m_is r "COPY" || m_is r "MOVE".
 (** invalid Depth / Overwrite / Destination where the header means something *)
 Definition m_headers (c : case) : bool :=
   let r := case_req c in
-  negb (is_principal c) &&
-  ((bad_depth r && (m_is r "PROPFIND" || copy_or_move r)) ||
-   (copy_or_move r && (bad_overwrite r || bad_dest r))).
+  (bad_depth r && (m_is r "PROPFIND" || (copy_or_move r && negb (is_principal c)))) ||
+  (negb (is_principal c) && copy_or_move r && (bad_overwrite r || bad_dest r)).
 
 (** invalid Content-Type *)
 Definition m_ctype (c : case) : bool :=
@@ -1551,15 +1568,15 @@ Definition malformed_basic (c : case) : bool :=
   negb (well_known_path c) && (m_headers c || m_ctype c || m_xml c || m_object c).
 
 (** ** Malformed query documents (RFC 4791 9.5-9.10, RFC 6352 8.7, 10.3-10.6),
-    read off the tree without reference to the decoder.  Namespace declarations
-    are not attributes of the vocabulary. *)
+    read off the tree without reference to the decoder.  The attributes of the
+    vocabulary are unqualified; declarations and foreign attributes are not looked at. *)
 Definition kids_of (t : xtree) : list xtree := match t with XElem _ _ _ k => k | _ => [] end.
 Definition attrs_of (t : xtree) : list xattr := match t with XElem _ _ a _ => a | _ => [] end.
 Definition has_kid (t : xtree) (ns local : string) : bool := existsb (fun k => kid_is k ns local) (kids_of t).
 Definition some_kid (t : xtree) (ns local : string) (p : xtree -> bool) : bool :=
   existsb (fun k => kid_is k ns local && p k) (kids_of t).
 Definition attr_bad (ok : string -> bool) (name : string) (t : xtree) : bool :=
-  existsb (fun a => negb (is_ns_decl a) && String.eqb (a_local a) name && negb (ok (a_val a))) (attrs_of t).
+  existsb (fun a => str_empty (a_ns a) && String.eqb (a_local a) name && negb (ok (a_val a))) (attrs_of t).
 
 Definition yes_no_ok (s : string) : bool := is_some (parse_yes_no s).
 Definition rfc_dates_bad (t : xtree) : bool :=
